@@ -170,6 +170,37 @@ func Schemas(thorough bool) (schemas []M, leaves []M, comps M) {
 		"Cat":  M{"type": "object", "required": []string{"kind", "p"}, "properties": M{"kind": M{"type": "string"}, "p": small[0]}},
 		"Dog":  M{"type": "object", "required": []string{"kind", "q"}, "properties": M{"kind": M{"type": "string"}, "q": small[1]}},
 	}
+	// variants of a discriminated sum whose payload is not a declared property: typed / free-form
+	// additional properties, pattern properties, a member-count bound (the discriminator values are
+	// enums, so the variants exclude each other under plain oneOf reading as well)
+	kind := func(v string) M { return M{"type": "string", "enum": []any{v}} }
+	comps["KCat"] = M{"type": "object", "required": []string{"kind", "p"}, "properties": M{"kind": kind("cat"), "p": small[0]}}
+	comps["KPure"] = M{"type": "object", "required": []string{"kind"}, "properties": M{"kind": kind("pure")}, "additionalProperties": M{"type": "integer", "minimum": 0}}
+	comps["KBag"] = M{"type": "object", "required": []string{"kind"}, "properties": M{"kind": kind("bag")}, "additionalProperties": true}
+	comps["KPat"] = M{"type": "object", "required": []string{"kind"}, "properties": M{"kind": kind("pat")}, "patternProperties": M{"^x": M{"type": "string", "maxLength": 2}}}
+	comps["KMin"] = M{"type": "object", "required": []string{"kind"}, "properties": M{"kind": kind("min")}, "additionalProperties": M{"type": "string"}, "minProperties": 2}
+	disc := func(names ...string) M {
+		var vs []any
+		mp := M{}
+		for _, n := range names {
+			vs = append(vs, M{"$ref": "#/components/schemas/" + n})
+			mp[comps[n].(M)["properties"].(M)["kind"].(M)["enum"].([]any)[0].(string)] = "#/components/schemas/" + n
+		}
+		return M{"oneOf": vs, "discriminator": M{"propertyName": "kind", "mapping": mp}}
+	}
+	schemas = append(schemas, disc("KCat", "KPure", "KBag"), disc("KCat", "KPat", "KMin"), disc("KPure", "KMin"))
+	// reference cycles through two and three components, through an array, a property and a map; the
+	// member that carries constraints comes first in name order and declares the way into the cycle
+	// before its constrained members
+	cref := func(n string) M { return M{"$ref": "#/components/schemas/" + n} }
+	comps["Dir"] = M{"type": "object", "properties": M{"entries": M{"type": "array", "items": cref("Ent")}, "name": M{"type": "string", "minLength": 1, "maxLength": 4}, "mode": M{"type": "integer", "minimum": 0, "maximum": 7}}}
+	comps["Ent"] = M{"type": "object", "properties": M{"label": M{"type": "string"}, "dir": cref("Dir")}}
+	comps["Ra"] = M{"type": "object", "properties": M{"next": cref("Rb"), "v": M{"type": "integer", "minimum": 0}}}
+	comps["Rb"] = M{"type": "object", "properties": M{"next": cref("Rc")}}
+	comps["Rc"] = M{"type": "object", "properties": M{"next": cref("Ra"), "t": M{"type": "boolean"}}}
+	comps["Ma"] = M{"type": "object", "properties": M{"kids": M{"type": "object", "additionalProperties": cref("Mb")}, "n": M{"type": "string", "maxLength": 2}}}
+	comps["Mb"] = M{"type": "object", "properties": M{"a": cref("Ma")}}
+	schemas = append(schemas, cref("Dir"), cref("Ra"), cref("Ma"), cref("Ent"), cref("Rc"))
 	schemas = append(schemas, M{"$ref": "#/components/schemas/Tree"})
 	if thorough {
 		// depth 3: every wrapper composition over the small leaves
